@@ -126,13 +126,13 @@ type M = map[string]interface{}
 // ---------------------------------------------------------------------------------------------
 // Rollouts of the namespace
 
-var archetypes = []string{"deleting", "disabled", "othername", "otherkind", "otherns", "badref", "canary", "traffic", "bluegreen", "bgtraffic", "empty", "emptylate"}
+var archetypes = []string{"deleting", "disabled", "othername", "otherkind", "otherns", "badref", "canary", "traffic", "bluegreen", "bgtraffic", "empty", "emptylate", "otherver"}
 
 // names are chosen so that the list order (by name) puts the Rollouts that must be skipped first
 var archeName = map[string]string{
 	"empty": "r0-empty", "deleting": "r1-deleting", "disabled": "r2-disabled", "othername": "r3-othername", "otherkind": "r3-otherkind",
 	"otherns": "r3-otherns", "badref": "r3-badref", "canary": "r4-canary", "traffic": "r5-traffic", "bluegreen": "r6-bluegreen",
-	"bgtraffic": "r7-bgtraffic", "emptylate": "r8-empty",
+	"bgtraffic": "r7-bgtraffic", "emptylate": "r8-empty", "otherver": "r4-otherver",
 }
 
 func mkRollout(k kindInfo, arche string) (*v1beta1.Rollout, Ro) {
@@ -174,6 +174,15 @@ func mkRollout(k kindInfo, arche string) (*v1beta1.Rollout, Ro) {
 		ro.Spec.Disabled = true
 		ro.Status.Phase = v1beta1.RolloutPhaseDisabled
 		ab.Disabled = true
+	case "otherver": // the reference names another served version of the same group: still THE Rollout of the workload
+		canary(false)
+		gv := k.gvk.GroupVersion()
+		if gv.Version == "v1beta1" {
+			gv.Version = "v1alpha1"
+		} else {
+			gv.Version = "v1beta1"
+		}
+		ro.Spec.WorkloadRef.APIVersion = gv.String()
 	case "othername":
 		canary(false)
 		ro.Spec.WorkloadRef.Name = "other"
@@ -682,8 +691,8 @@ func main() {
 	// sets of Rollouts in the namespace
 	rosets := []string{"", "othername", "canary", "traffic", "bluegreen", "bgtraffic", "disabled", "deleting", "empty",
 		"disabled+canary", "deleting+traffic", "othername+otherkind+otherns+bluegreen", "deleting+disabled+othername",
-		"canary+traffic", "empty+canary", "badref+canary+emptylate"}
-	rosetsSmall := []string{"", "othername+otherkind", "canary", "traffic", "bgtraffic", "disabled", "deleting+disabled+bluegreen", "empty", "canary+emptylate"}
+		"canary+traffic", "empty+canary", "badref+canary+emptylate", "otherver", "disabled+otherver"}
+	rosetsSmall := []string{"", "othername+otherkind", "canary", "traffic", "bgtraffic", "disabled", "deleting+disabled+bluegreen", "empty", "canary+emptylate", "otherver"}
 	if thorough {
 		seen := map[string]bool{}
 		all := append(subsets([]string{"deleting", "disabled", "othername", "canary", "traffic", "bluegreen"}), rosets...)
